@@ -1,8 +1,10 @@
 #!/bin/sh
-# tools/run_all.sh [quick|thorough] [seed]  — runs every claimed check on /repo, 4 at a time, prints a summary
+# tools/run_all.sh [quick|thorough] [seed]  — runs every claimed check (of the checkout this script lives in) on
+# /repo, 4 at a time, prints a summary; per-check output under $OUT (default /tmp/run_all)
 TIER=${1:-quick}; SEED=${2:-0}
-cd /verif
+cd "$(dirname "$0")/.."
+OUT=${OUT:-/tmp/run_all}
 IDS=$(python3 -c "import json; print(' '.join(c['property_id'] for c in json.load(open('MANIFEST.json'))['checks']))")
-mkdir -p /tmp/run_all
-for id in $IDS; do echo $id; done | xargs -P 4 -I{} sh -c "VERIF_SEED=$SEED ./check {} --tier $TIER > /tmp/run_all/{}.out 2>/tmp/run_all/{}.err; echo {} exit=\$? >> /tmp/run_all/summary.$$"
-sort /tmp/run_all/summary.$$; grep -l "^VIOLATION" /tmp/run_all/*.out 2>/dev/null; rm -f /tmp/run_all/summary.$$
+mkdir -p $OUT
+for id in $IDS; do echo $id; done | xargs -P 4 -I{} sh -c "VERIF_SEED=$SEED ./check {} --tier $TIER > $OUT/{}.out 2>$OUT/{}.err; echo {} exit=\$? >> $OUT/summary.$$"
+sort $OUT/summary.$$; grep -l "^VIOLATION" $OUT/*.out 2>/dev/null; rm -f $OUT/summary.$$
